@@ -121,6 +121,14 @@ func mkDocEmb(d ref.Draft, cont, decoy, frag string) string {
 	return fmt.Sprintf(`{"$defs":{"r":{"$id":"http://h/r.json","$defs":{"c":%s},"$ref":%s},"c":%s},"$ref":"#/$defs/r"}`, cont, fb, decoy)
 }
 
+// mkDocDecoy07 adds a definitions entry whose fragment-only $id is spelled like the pointer that
+// is referenced: the reference is a pointer (it starts with '/') and must go to the location.
+func mkDocDecoy07(cont, ptr string) string {
+	fb, _ := json.Marshal("#" + ref.FragmentEncode(ptr))
+	ib, _ := json.Marshal("#" + ptr)
+	return fmt.Sprintf(`{"$schema":"http://json-schema.org/draft-07/schema#","definitions":{"c":%s,"zz-decoy":{"$id":%s,"const":-7}},"allOf":[{"$ref":%s}]}`, cont, ib, fb)
+}
+
 func build(thorough bool) []doc {
 	var docs []doc
 	for _, d := range []ref.Draft{ref.D2020, ref.D07} {
@@ -150,6 +158,15 @@ func build(thorough bool) []doc {
 					f := ref.FragmentEncode(p)
 					docs = append(docs, doc{mkDoc(d, cont, f[:i]+"%2f"+f[i+1:]), l.marker, d, "valid(last / as %2f) " + p, markers})
 				}
+			}
+		}
+		if d == ref.D07 {
+			for li := 0; li < len(locs); li += 6 {
+				p := prefix + locs[li].ptr
+				if strings.ContainsAny(p, " \"%#?\\") {
+					continue // the decoy's $id must itself be a well-formed URI reference
+				}
+				docs = append(docs, doc{mkDocDecoy07(cont, p), locs[li].marker, d, "valid (a fragment $id elsewhere is spelled like this pointer) " + p, append(append([]int(nil), markers...), -7)})
 			}
 		}
 		// the same pointers read from inside an embedded resource (quick: every 3rd location)
@@ -199,7 +216,12 @@ func build(thorough bool) []doc {
 				p := "/" + ref.PointerEscape(kw) + "/" + ref.PointerEscape(x.key)
 				docs = append(docs, doc{flat(ref.FragmentEncode(p)), x.m, d, "valid (two segments) " + p, ms})
 			}
-			for _, bad := range []string{"/" + kw + "/~", "/" + kw + "/~2", "/" + kw + "/a~b", "/" + kw + "/missing", "/" + kw + "/a/", "/" + kw, "/" + kw + "/", "/" + strings.ToUpper(kw) + "/a"} {
+			other := "definitions"
+			if d == ref.D07 {
+				other = "$defs"
+			}
+			for _, bad := range []string{"/" + other + "/a", "/" + other + "/", "/" + other + "/A", "/" + other,
+				"/" + kw + "/~", "/" + kw + "/~2", "/" + kw + "/a~b", "/" + kw + "/missing", "/" + kw + "/a/", "/" + kw, "/" + kw + "/", "/" + strings.ToUpper(kw) + "/a"} {
 				want := -1
 				if bad == "/"+kw+"/" {
 					want = 9000 // the empty key exists
@@ -214,6 +236,18 @@ func build(thorough bool) []doc {
 				docs = append(docs, doc{mkDoc(d, cont, ref.FragmentEncode(p)), -1, d, "invalid " + p, markers})
 			}
 		}
+		// the other draft's spelling of the definitions container names nothing here
+		wrong := "/definitions/c"
+		if d == ref.D07 {
+			wrong = "/$defs/c"
+		}
+		for _, l := range locs {
+			if len(docs)%5 == 0 {
+				docs = append(docs, doc{mkDoc(d, cont, ref.FragmentEncode(wrong+l.ptr)), -1, d, "invalid (sibling spelling of the container) " + wrong + l.ptr, markers})
+			}
+		}
+		docs = append(docs, doc{mkDoc(d, cont, ref.FragmentEncode(wrong)), -1, d, "invalid (sibling spelling of the container) " + wrong, markers},
+			doc{mkDoc(d, cont, ref.FragmentEncode(prefix+wrong+"/not")), -1, d, "invalid (sibling spelling, nested) " + prefix + wrong + "/not", markers})
 		for _, bad := range []string{"/type", "/type/0", "/required", "/required/0", "/enum", "/enum/0", "/const", "/const/not", "/default", "/examples/0", "/title", "/x-unknown",
 			"/properties", "/allOf", "/$defs", "/definitions", "/dependencies/strs", "/dependencies/strs/0", "/dependentRequired/a", "/dependentRequired/a/0",
 			"/Defs/a", "/PropertyOrder", "/AllOf/0", "/Not", "/Extra", "/Items", "/ItemsArray/0", "/DependencySchemas/a", "/PrefixItems/0", "/$vocabulary/x", "/$vocabulary",
